@@ -2626,7 +2626,8 @@ FROM (
             )
         elif then_join_id:
             # then=dataset, else=scalar: filter when condition is true
-            builder.where(f"NOT ({cond_expr}) OR {then_join_id} IS NOT NULL")
+            # (a NULL condition selects the scalar else branch, so the datapoint stays)
+            builder.where(f"({cond_expr}) IS NOT TRUE OR {then_join_id} IS NOT NULL")
         elif e_join_id:
             # then=scalar, else=dataset: filter when condition is false
             builder.where(f"({cond_expr}) OR {e_join_id} IS NOT NULL")
